@@ -278,6 +278,9 @@ def late_registration(R):
     class Tagged(Quantity):
         pass
 
+    class Plain(Quantity):          # never gets a saver of its own: always written by the newest saver of Quantity
+        pass
+
     @saver(Quantity)
     def _s1(q, context):
         return dict(v=q.v)
@@ -285,8 +288,8 @@ def late_registration(R):
     @loader(Quantity)
     def _l1(rec, context):
         return Quantity(rec['v'])
-    q, t = Quantity(3), Tagged(4)
-    first = (GlueSerializer(q).dumps(), GlueSerializer(t).dumps())
+    q, t, pl = Quantity(3), Tagged(4), Plain(5)
+    first = (GlueSerializer(q).dumps(), GlueSerializer(t).dumps(), GlueSerializer(pl).dumps())
 
     @saver(Quantity, version=2)
     def _s2(q, context):
@@ -303,7 +306,11 @@ def late_registration(R):
     @loader(Tagged)
     def _lt(rec, context):
         return Tagged(rec['v'])
-    second = (GlueSerializer(q).dumps(), GlueSerializer(t).dumps())
+    second = (GlueSerializer(q).dumps(), GlueSerializer(t).dumps(), GlueSerializer(pl).dumps())
+    R.count(('late', 'inherited-version'), 'late-registration')
+    if '"_protocol": 2' not in second[2] or '"unit"' not in second[2]:
+        R.fail("late-registration|newer-base-version-ignored-by-subclass", "an object of a subclass without a saver of its own, saved once through the inherited version-1 saver, is not written by the "
+               "version-2 saver registered for its base class afterwards: %s" % second[2], None)
     R.count(('late', 'version'), 'late-registration')
     R.count(('late', 'subclass'), 'late-registration')
     if '"_protocol": 2' not in second[0] or '"unit"' not in second[0]:
